@@ -684,3 +684,4 @@ MANIFEST["text"] += ' Also: Ellipsis is expanded before the index is padded to n
 MANIFEST["text"] += ' The stale-read rule is field-sensitive (a store into self.array invalidates shape/ndim/dtype reads, a store into sampling only sampling reads …) and is a def-use fact over the CFG, reported as definite whatever the layout of the method.'
 MANIFEST["text"] += ' validate_ndinfo: the length compared with ndim is that of the returned, flattened array (not of the raw argument).'
 MANIFEST["text"] += ' R5 also: the calibration setters and the array setter do not convert the new value to the dtype of the state it replaces (closure of the dtype argument through locals; definite).'
+MANIFEST["text"] += " R4 also: Dataset.bin's calibration working vectors are storage of their own (coupled with validate_ndinfo's copy guarantee)."
